@@ -217,6 +217,27 @@ pub fn check(c: &mut Case, k: Kind, texs: &[Tex], shuffle: bool, all_prefixes: b
             }
         }
     }
+    if k != Kind::Ctpk && b.bytes.len() >= 4 {
+        // the identifier in the other byte order / with its halves swapped is a wrong magic too
+        for variant in 0..3 {
+            let mut m = b.bytes.clone();
+            match variant {
+                0 => m[..4].reverse(),
+                1 => m[..4].rotate_left(2),
+                _ => {
+                    m[..2].reverse();
+                    m[2..4].reverse();
+                }
+            }
+            if m[..4] == b.bytes[..4] {
+                continue;
+            }
+            c.sit("wrong_magic");
+            if let Some(Ok(v)) = read(c, k, &m, "read with the magic number in another byte order") {
+                c.fail("wrong_magic_accepted", &format!("wrong_magic_accepted:{:?}", k), format!("{:?} input whose magic bytes are {} instead of {} was accepted ({} textures)", k, hex_short(&m[..4], 4), hex_short(&b.bytes[..4], 4), v.len()));
+            }
+        }
+    }
     // ---- strict prefixes
     let must_fail_below = b.payload_ranges.iter().map(|(_, e)| *e).max().unwrap_or(0);
     let n = b.bytes.len();
@@ -344,6 +365,18 @@ pub fn run(cx: &mut Ctx) {
                     texs.insert(at, t);
                     c.sit("two_textures_share_one_payload");
                 }
+            }
+            // the same payload seen through swapped dimensions, and a texture listed twice
+            if k != Kind::Tpl && !texs.is_empty() && rng.chance(1, 8) {
+                let src = rng.below(texs.len());
+                let mut t = texs[src].clone();
+                if t.width != t.height && rng.bool() {
+                    std::mem::swap(&mut t.width, &mut t.height);
+                    t.name = format!("{}_turned", t.name);
+                }
+                let at = rng.below(texs.len() + 1);
+                texs.insert(at, t);
+                c.sit("two_textures_share_one_payload");
             }
             let shuffle = rng.chance(2, 3);
             c.rng = rng;
